@@ -375,6 +375,8 @@ class Library:
         return self.dict_get_symbolic(d, [key], '__getitem__')
 
     def setitem(self, obj, key, v):
+        if isinstance(obj, SOpaque) and obj.info.get('param'):
+            self.st.writes.append((obj.info['param'], 'param', 'setitem'))
         if isinstance(obj, SOpaque) and obj.kind == 'dict' and sym.is_strlike(key):
             from spec import wire
             val = v.t if isinstance(v, SOpaque) and v.t is not None else self.st.fresh('stored_value', sym.ObjS)
@@ -419,6 +421,10 @@ class Library:
         st = self.st
         if isinstance(obj, SOpaque) and obj.kind == 'dict' and name == 'items' and not args:
             return SOpaque('items', obj.t, {'dict': obj})
+        if isinstance(obj, SOpaque) and obj.kind in ('list', 'dict') and obj.info.get('param') and \
+                name in ('append', 'extend', 'insert', 'pop', 'reverse', 'sort', 'clear', 'remove', 'update',
+                         'setdefault', 'popitem', '__setitem__', '__delitem__'):
+            st.writes.append((obj.info['param'], 'param', name))        # the caller's container is being modified
         if isinstance(obj, SOpaque) and obj.kind == 'list' and name == 'append' and len(args) == 1:
             from spec import wire
             v = args[0]
